@@ -533,7 +533,7 @@ pub fn run(cfg: &RunCfg) -> i32 {
   crate::replay_known::<Case>(&mut report, &known, check);
   let thorough = cfg.tier == Tier::Thorough;
   let perms = if thorough { 6 } else { 3 };
-  let total = cfg.budget(160, 1_500);
+  let total = cfg.budget(160, 5_000);
   let launches = if thorough { 8 } else { 4 };
   let o = drive(
     cfg,
